@@ -63,7 +63,9 @@ type Trace struct {
 	Copies []Copy `json:"copies"`
 	Others int    `json:"others"` // datagrams that are not copies of the request (e.g. ACKs for a CON separate response)
 	Errs   int    `json:"errs"`
-	Final  Ev     `json:"final"` // after cancelling the caller (if it was still waiting)
+	WFail  bool   `json:"wfail"`    // the first transmission was refused by the network (transient write error)
+	NextOK bool   `json:"nextSent"` // wfail: a request issued afterwards was transmitted (the NSTART slot was given back)
+	Final  Ev     `json:"final"`    // after cancelling the caller (if it was still waiting)
 }
 
 func runOne(st Stim) Trace {
@@ -127,6 +129,14 @@ func runOne(st Stim) Trace {
 	if len(steps) > 0 && steps[0].A == "deadline" {
 		steps = steps[1:]
 	}
+	if len(steps) > 0 && steps[0].A == "wfail" {
+		if u.failNext == nil {
+			rec.Die("c06: wfail needs the in-memory link")
+		}
+		tr.WFail = true
+		steps = steps[1:]
+		u.failNext(1)
+	}
 	var occDone chan struct{}
 	var occMID int32
 	occTok := []byte{0x0C, 0xC0}
@@ -184,7 +194,10 @@ func runOne(st Stim) Trace {
 		u.inject(memnet.Build(message.Acknowledgement, int(codes.Content), occMID, occTok, nil, []byte("O")))
 		<-occDone
 	}
-	if !hooks.WaitFor(conns.WD, func() bool { mu.Lock(); defer mu.Unlock(); return len(tr.Copies) == 1 }) {
+	if tr.WFail {
+		// nothing reaches the wire; the call returns the error
+		hooks.WaitFor(conns.WD, func() bool { return len(resCh) == 1 })
+	} else if !hooks.WaitFor(conns.WD, func() bool { mu.Lock(); defer mu.Unlock(); return len(tr.Copies) == 1 }) {
 		rec.Die("c06: first transmission not seen")
 	}
 	base := time.Now()
@@ -250,6 +263,32 @@ func runOne(st Stim) Trace {
 	u.cc.CheckExpirations(base.Add(1000 * time.Second))
 	u.settle()
 	tr.Final = snap(Act{"end", 0})
+	if tr.WFail {
+		// the connection is alive: its next request must go out (NSTART = 1: the failed request gave its slot back)
+		nctx, ncancel := context.WithCancel(context.Background())
+		ntok := []byte{0xD2, 0x06}
+		ndone := make(chan struct{})
+		go func() {
+			defer close(ndone)
+			if nreq, err := u.cc.NewGetRequest(nctx, "/next"); err == nil {
+				nreq.SetToken(ntok)
+				if resp, err := u.cc.Do(nreq); err == nil {
+					u.cc.ReleaseMessage(resp)
+				}
+				u.cc.ReleaseMessage(nreq)
+			}
+		}()
+		tr.NextOK = hooks.WaitFor(500*time.Millisecond, func() bool {
+			for _, raw := range u.out() {
+				if d, err := memnet.Parse(raw); err == nil && bytes.Equal(d.Token, ntok) {
+					return true
+				}
+			}
+			return false
+		})
+		ncancel()
+		<-ndone
+	}
 	// a run that took a sizeable part of a real-time deadline says nothing about the virtual schedule
 	tr.Slow = dlSec > 0 && dlSec < 100 && time.Since(began) > time.Duration(dlSec)*time.Second/3
 	tr.Errs = u.errs()
